@@ -1,20 +1,108 @@
-/* C09: br_divrem / br_rem / br_div vs 64-bit division, precondition hi < d
-   (and the documented hi == d truncated case for the remainder) */
+/* C09: br_divrem / br_rem / br_div (real src/int/i32_div32.c).
+ *
+ * Documented contract (inner.h): hi:lo divided by d, quotient returned,
+ * remainder in *r; precondition hi <= d; for hi == d the quotient does not
+ * fit and "is thus truncated" (i.e. its low 32 bits are returned; the
+ * remainder is still exact); hi > d is outside the contract.
+ *
+ * Two independent references, selected per query:
+ *  default   multiplication form on 64-bit integers: r < d and q*d + r == hi:lo
+ *            (unique).  Needs a 32x32 multiplier circuit: only finishes with a
+ *            bounded divisor (-DDMAX=...).
+ *  REF_LONG  text-book long division on the 64-bit dividend, one quotient bit
+ *            per step (subtract d*2^k when it fits; no multiplication, no '/'):
+ *            all 2^96 inputs.  -DREF_SELFCHECK checks that text-book loop
+ *            itself against the multiplication form (bounded d), so the
+ *            reference is not taken on faith.
+ *  HI_EQ_D   the documented hi == d case.
+ *  DMAX / QBITS  bound the divisor (d < DMAX) / the quotient (< 2^QBITS).
+ *  LAWK=k    one step of an induction over the quotient length (splitting
+ *            law of long division, both sides are the real function):
+ *            k = -1: N < d gives (0, N);  k >= 0: for N < d*2^(k+1),
+ *            F(N) = (b<<k | F(N - b*d*2^k).q, F(N - b*d*2^k).r), b = [N >= d*2^k].
+ *            LAWK = -1, 0, ..., k together decide F for every N < d*2^(k+1),
+ *            i.e. every divisor and every quotient below 2^(k+1).
+ */
 #include "common.h"
 #include "inner.h"
 
+/* long division of N = hi:lo by d (hi <= d): for every quotient bit k from
+   the top, subtract d*2^k from N when it fits.  hi == d: bit 32 of the
+   quotient is dropped first (documented truncation). */
+static uint32_t
+ref_long(uint32_t hi, uint32_t lo, uint32_t d, uint32_t *r)
+{
+	uint64_t n = ((uint64_t)hi << 32) | lo;
+	uint32_t q = 0;
+	if (hi == d) n -= (uint64_t)d << 32;
+	for (int k = 31; k >= 0; k--) {
+		uint64_t dk = (uint64_t)d << k;
+		if (n >= dk) { n -= dk; q |= (uint32_t)1 << k; }
+	}
+	*r = (uint32_t)n;
+	return q;
+}
+
 int main(void)
 {
-	uint32_t hi = ND_U32(), lo = ND_U32(), d = ND_U32(), r;
+	uint32_t hi = ND_U32(), lo = ND_U32(), d = ND_U32(), r = 0, r2 = 0;
 #ifdef DMAX
 	ASSUME(d < DMAX);
 #endif
+#ifdef HI_EQ_D
+	ASSUME(hi == d && d != 0);
+#else
 	ASSUME(hi < d);
-	uint32_t q = br_divrem(hi, lo, d, &r);
+#endif
 	uint64_t n = ((uint64_t)hi << 32) | lo;
-	/* multiplication-form reference: n == q*d + r, r < d (unique) */
+#ifdef QBITS
+	ASSUME(n < ((uint64_t)d << QBITS));	/* quotient below 2^QBITS */
+#endif
+#if defined(LAWK)
+#if LAWK < 0
+	ASSUME(hi == 0 && lo < d);
+	uint32_t q = br_divrem(hi, lo, d, &r);
+	CHECK(q == 0 && r == lo, "N < d: quotient 0, remainder N");
+#else
+	uint64_t dk = (uint64_t)d << LAWK;
+#if LAWK < 31
+	ASSUME(n < (dk << 1));
+#endif
+	uint32_t b = n >= dk;
+	uint64_t n2 = b ? n - dk : n;
+	uint32_t q = br_divrem(hi, lo, d, &r);
+	uint32_t q2 = br_divrem((uint32_t)(n2 >> 32), (uint32_t)n2, d, &r2);
+	CHECK(q == ((b << LAWK) | q2), "splitting law: quotient");
+	CHECK(r == r2, "splitting law: remainder");
+#endif
+#elif defined(REF_SELFCHECK)
+	uint32_t q = ref_long(hi, lo, d, &r);
+	CHECK(r < d, "reference: remainder below divisor");
+#ifdef HI_EQ_D
+	CHECK((uint64_t)q * d + r + ((uint64_t)d << 32) == n, "reference: (2^32+q)*d + r == hi:lo");
+#else
+	CHECK((uint64_t)q * d + r == n, "reference: q*d + r == hi:lo");
+#endif
+#else
+	uint32_t q = br_divrem(hi, lo, d, &r);
+#ifdef T_WRAP
+	CHECK(br_rem(hi, lo, d) == r, "br_rem returns the remainder of br_divrem");
+	CHECK(br_div(hi, lo, d) == q, "br_div returns the quotient of br_divrem");
+#endif
+#ifdef REF_LONG
+	uint32_t q2 = ref_long(hi, lo, d, &r2);
+	CHECK(r == r2, "remainder equals long-division remainder");
+	CHECK(q == q2, "quotient equals long-division quotient (mod 2^32)");
+#else
 	CHECK(r < d, "remainder below divisor");
+#ifdef HI_EQ_D
+	/* true quotient is 2^32 + q' with q' < 2^32; truncated value is q' */
+	CHECK((uint64_t)q * d + r + ((uint64_t)d << 32) == n, "hi == d: (2^32+q)*d + r == hi:lo");
+#else
 	CHECK((uint64_t)q * d + r == n, "q*d + r == hi:lo");
+#endif
+#endif
+#endif
 	WITNESS_POINT("end");
 	return 0;
 }
